@@ -20,6 +20,7 @@ from .exceptions import (
     MissingParameters,
     NoSuchParameter,
     MPilotError,
+    RecursiveModelStructure,
 )
 from .params import ResultParameter, ListParameter
 from .parser.parser import Parser, ProgramNode
@@ -264,6 +265,7 @@ class Program(object):
     def run(self):
         # Build dependency lookup
         dependents = {}  # {result_name, [dependent_name, ...], ...}
+        graph = {}  # {result_name: [referenced_result_name, ...], ...}
 
         for command in self.commands.values():
             references = []
@@ -285,6 +287,28 @@ class Program(object):
             for reference in references:
                 dependents[reference] = dependents.get(reference, set())
                 dependents[reference].add(command.result_name)
+
+            graph[command.result_name] = [
+                r.result_name if isinstance(r, Command) else r for r in references
+            ]
+
+        # Reject models whose references form a loop, before any command runs
+        unresolved = dict(graph)
+        while unresolved:
+            ready = [
+                name
+                for name, references in unresolved.items()
+                if not any(r in unresolved for r in references)
+            ]
+            if not ready:
+                # Follow unresolved references until a command repeats: that command is part of a loop
+                name, seen = next(iter(unresolved)), []
+                while name not in seen:
+                    seen.append(name)
+                    name = next(r for r in unresolved[name] if r in unresolved)
+                raise RecursiveModelStructure(self.commands[name].lineno)
+            for name in ready:
+                del unresolved[name]
 
         # Find and run leaf nodes (commands without any dependents)
         for command in (
